@@ -1345,16 +1345,41 @@ func hostnameFromHostPortBytes(hostPort []byte) []byte {
 }
 
 func isDomainOrSubdomainBytes(sub, parent []byte) bool {
-	if bytes.EqualFold(sub, parent) {
+	if equalFoldASCII(sub, parent) {
 		return true
 	}
 	if len(sub) <= len(parent) || bytes.IndexByte(sub, ':') >= 0 || bytes.IndexByte(sub, '%') >= 0 {
 		return false
 	}
-	if !bytes.EqualFold(sub[len(sub)-len(parent):], parent) {
+	if !equalFoldASCII(sub[len(sub)-len(parent):], parent) {
 		return false
 	}
 	return sub[len(sub)-len(parent)-1] == '.'
+}
+
+// equalFoldASCII reports whether a and b are equal under ASCII case folding.
+//
+// bytes.EqualFold must not be used to compare host names: it applies Unicode
+// simple case folding, under which U+212A (KELVIN SIGN) equals 'k' and U+017F
+// (LATIN SMALL LETTER LONG S) equals 's', so a host such as "\u212a.example"
+// would be treated as "k.example".
+func equalFoldASCII(a, b []byte) bool {
+	if len(a) != len(b) {
+		return false
+	}
+	for i := range a {
+		ca, cb := a[i], b[i]
+		if 'A' <= ca && ca <= 'Z' {
+			ca += 'a' - 'A'
+		}
+		if 'A' <= cb && cb <= 'Z' {
+			cb += 'a' - 'A'
+		}
+		if ca != cb {
+			return false
+		}
+	}
+	return true
 }
 
 func splitHostPortBytes(hostPort []byte) ([]byte, []byte) {
